@@ -1,7 +1,205 @@
 import ScVerif.Base.Line
-/-! Driver handler for C01 (stub: replaced by the property's owner). -/
-namespace ScVerif.C01
+import ScVerif.C01.Flat
+/-!
+Driver handler for C01 (stateful): one resource (Value or Collection over the `Flat` message) per
+driver process or per `newc` / `newv` line.
 
-def handle (_toks : List String) : String := "!bad-op"
+Requests (tokens `key=value` or bare flags, any order after the op):
+
+```
+newc [W=<mask>] [icpt=<name>] [tick=<n>] [rng=<b,b,…>] [init=<id~msg;id~msg>]      -> ok
+newv [W=<mask>] [tick=<n>] [init=<msg>]                                             -> ok
+upd|add id=<id> msg=<msg> <write opts>     -> val=… err=… ev=[…] ids=[…] created=n | st=[…] clk=n
+del id=<id> <write opts>                   -> likewise
+get id=<id> [rm=<mask>]                    -> <msg>|nil
+list [rm=<mask>] [inc=<name>]              -> [msg;msg;…]
+vset msg=<msg> <write opts>                -> val=… err=… ev=[…] | st=<msg|nil>@t clk=n
+vget [rm=<mask>]                           -> <msg>|nil
+write opts: wt=<n> um=<mask> rs=<mask> ev=<msg> xa chk=<name> am bf=<name> af=<name> nw mw=<mask>
+            cia ccb gid icb
+mask: 0 (no paths) or letters a,s,c,x separated by commas;   msg: <a>/<s>/<c|->
+```
+-/
+namespace ScVerif.C01
+open ScVerif.Line
+
+abbrev KV := List (String × String)
+
+/-- `k=v` ↦ (k, v); a bare flag ↦ (flag, "") -/
+def parseKV (toks : List String) : Option KV :=
+  toks.mapM (fun t => match t.splitOn "=" with
+    | [k] => some (k, "")
+    | [k, v] => some (k, v)
+    | _ => none)
+
+def kvGet (kv : KV) (k : String) : Option String := (kv.find? (·.1 = k)).map (·.2)
+def kvHas (kv : KV) (k : String) : Bool := (kvGet kv k).isSome
+
+def parseField? : String → Option Field
+  | "a" => some .a | "s" => some .s | "c" => some .c | "x" => some .x | _ => none
+
+def parseMask? (s : String) : Option Mask :=
+  if s = "0" then some [] else (s.splitOn ",").mapM parseField?
+
+def parseMsg? (s : String) : Option Msg :=
+  match s.splitOn "/" with
+  | [a, str, c] => do
+    let av ← parseInt? a
+    let cv ← if c = "-" then some none else (parseInt? c).map some
+    pure { a := av, s := str, c := cv }
+  | _ => none
+
+/-- optional key whose value must parse when present -/
+def optKey {α : Type} (kv : KV) (k : String) (p : String → Option α) : Option (Option α) :=
+  match kvGet kv k with
+  | none => some none
+  | some v => (p v).map some
+
+def knownWriteKeys : List String :=
+  ["id", "msg", "wt", "um", "rs", "ev", "xa", "chk", "am", "bf", "af", "nw", "mw", "cia", "ccb", "gid", "icb"]
+
+def parseWriteReq? (kv : KV) : Option (WriteReq Msg Mask) := do
+  if !(kv.all (fun p => knownWriteKeys.contains p.1)) then none
+  let wt ← optKey kv "wt" parseNat?
+  let um ← optKey kv "um" parseMask?
+  let rs ← optKey kv "rs" parseMask?
+  let ev ← optKey kv "ev" parseMsg?
+  let chk ← optKey kv "chk" namedCheck
+  let bf ← optKey kv "bf" namedBefore
+  let af ← optKey kv "af" namedAfter
+  let mw ← optKey kv "mw" parseMask?
+  pure { writeTime := wt, updateMask := um, resetMask := rs, expectedValue := ev,
+         expectAbsent := kvHas kv "xa", expectedCheck := chk, allowMissing := kvHas kv "am",
+         before := bf, after := af, nilWritable := kvHas kv "nw", moreWritable := mw,
+         createIfAbsent := kvHas kv "cia", createdCb := kvHas kv "ccb",
+         genEmptyID := kvHas kv "gid", idCb := kvHas kv "icb" }
+
+def parseReadReq? (kv : KV) : Option (ReadReq Msg Mask) := do
+  let rm ← optKey kv "rm" parseMask?
+  let inc ← optKey kv "inc" namedInclude
+  pure { readMask := rm, incl := inc }
+
+def parseRng? (s : String) : Option (List Nat) :=
+  if s = "" then some [] else (s.splitOn ",").mapM parseNat?
+
+def parseInit? (s : String) : Option (List (String × Msg)) :=
+  if s = "" then some []
+  else (s.splitOn ";").mapM (fun rec => match rec.splitOn "~" with
+    | [id, m] => (parseMsg? m).map (fun v => (id, v))
+    | _ => none)
+
+abbrev FCfg := Cfg Msg Mask (List Nat)
+
+def parseCfg? (kv : KV) : Option FCfg := do
+  let w ← optKey kv "W" parseMask?
+  let ic ← optKey kv "icpt" namedIcpt
+  let tick ← optKey kv "tick" parseNat?
+  pure { ops := flatOps, writable := w, icpt := ic, tick := tick.getD 1, gen := flatGen }
+
+/-! ### printing -/
+
+def showOptInt : Option Int → String
+  | none => "-"
+  | some n => toString n
+
+def showMsg (m : Msg) : String := s!"{m.a}/{m.s}/{showOptInt m.c}"
+
+def showOptMsg : Option Msg → String
+  | none => "nil"
+  | some m => showMsg m
+
+def showErr : Option Code → String
+  | none => "-"
+  | some c => c.name
+
+def Kind.name : Kind → String
+  | .add => "ADD" | .update => "UPDATE" | .remove => "REMOVE"
+
+def showFlags (seed last : Bool) : String :=
+  (if seed then "S" else "") ++ (if last then "L" else "")
+
+def showCEvent (e : CEvent Msg) : String :=
+  s!"{e.id}|{e.time}|{e.kind.name}|{showOptMsg e.old}|{showOptMsg e.new}|{showFlags e.seed e.lastSeed}"
+
+def showList (xs : List String) : String := "[" ++ ";".intercalate xs ++ "]"
+
+def showCState (s : CState Msg (List Nat)) : String :=
+  let items := (sortById s.items).map (fun kv => s!"{kv.1}~{showMsg kv.2.body}@{kv.2.time}")
+  s!"st={showList items} clk={s.clock}"
+
+def showCOut (o : COut Msg) : String :=
+  s!"val={showOptMsg o.val} err={showErr o.err} ev={showList (o.events.map showCEvent)} " ++
+  s!"ids={showList o.idCalls} created={o.createdCalls}"
+
+def showVEvent (e : VEvent Msg) : String := s!"{showMsg e.value}|{e.time}"
+
+def showVState (s : VState Msg) : String :=
+  match s.value with
+  | none => s!"st=nil@? clk={s.clock}"   -- no seed is sent for an absent value: its change time is not observable
+  | some m => s!"st={showMsg m}@{s.changeTime} clk={s.clock}"
+
+def showVOut (o : VOut Msg) : String :=
+  s!"val={showOptMsg o.val} err={showErr o.err} ev={showList (o.events.map showVEvent)}"
+
+/-! ### the handler -/
+
+inductive DrvState
+  | none
+  | coll (cfg : FCfg) (s : CState Msg (List Nat))
+  | val (cfg : FCfg) (s : VState Msg)
+
+def handleOpt (st : DrvState) (toks : List String) : Option (DrvState × String) :=
+  match toks with
+  | [] => none
+  | op :: rest => do
+    let kv ← parseKV rest
+    match op, st with
+    | "newc", _ =>
+      let cfg ← parseCfg? kv
+      let rng ← parseRng? ((kvGet kv "rng").getD "")
+      let init ← parseInit? ((kvGet kv "init").getD "")
+      pure (.coll cfg (Coll.init cfg init rng), "ok")
+    | "newv", _ =>
+      let cfg ← parseCfg? kv
+      let init ← optKey kv "init" parseMsg?
+      pure (.val cfg (Value.init cfg init), "ok")
+    | "upd", .coll cfg s =>
+      let id ← kvGet kv "id"
+      let msg ← (kvGet kv "msg").bind parseMsg?
+      let wr ← parseWriteReq? kv
+      let (o, s') := Coll.update cfg s id msg wr
+      pure (.coll cfg s', showCOut o ++ " | " ++ showCState s')
+    | "add", .coll cfg s =>
+      let id ← kvGet kv "id"
+      let msg ← (kvGet kv "msg").bind parseMsg?
+      let wr ← parseWriteReq? kv
+      let (o, s') := Coll.add cfg s id msg wr
+      pure (.coll cfg s', showCOut o ++ " | " ++ showCState s')
+    | "del", .coll cfg s =>
+      let id ← kvGet kv "id"
+      let wr ← parseWriteReq? kv
+      let (o, s') := Coll.delete cfg s id wr
+      pure (.coll cfg s', showCOut o ++ " | " ++ showCState s')
+    | "get", .coll cfg s =>
+      let id ← kvGet kv "id"
+      let ro ← parseReadReq? kv
+      pure (st, showOptMsg (Coll.get cfg s id ro))
+    | "list", .coll cfg s =>
+      let ro ← parseReadReq? kv
+      pure (st, showList ((Coll.list cfg s ro).map showMsg))
+    | "vset", .val cfg s =>
+      let msg ← (kvGet kv "msg").bind parseMsg?
+      let wr ← parseWriteReq? kv
+      let (o, s') := Value.set cfg s msg wr
+      pure (.val cfg s', showVOut o ++ " | " ++ showVState s')
+    | "vget", .val cfg s =>
+      let ro ← parseReadReq? kv
+      pure (st, showOptMsg (Value.get cfg s ro))
+    | _, _ => none
+
+def handleS (st : DrvState) (toks : List String) : DrvState × String :=
+  match handleOpt st toks with
+  | some r => r
+  | none => (st, "!bad-op")
 
 end ScVerif.C01
